@@ -345,7 +345,8 @@ def run_case(case, rec):
         al, be = rng.uniform(0.5, 1.5, k), rng.uniform(-1, 1, (k, D))
         A, Bm = J(al), J(be)
         if nonst:
-            fj = lambda t, x: A + jnp.concatenate([t, x], axis=-1) @ Bm.T
+            # written with broadcasting arithmetic (as users do), not by concatenating t and x
+            fj = lambda t, x: A + t * Bm[:, 0] + x @ Bm[:, 1:].T
         else:
             fj = lambda x: A + x @ Bm.T
         fnp = lambda z: al + be @ z
